@@ -53,7 +53,7 @@ QUERIES = [
     "get_args_all", "get_args_default", "get_args_flags", "rhs", "call", "fluxes", "stoich",
     "initial_conditions", "parameter_values", "derived_parameter_names", "derived_variable_names",
     "names", "args_time_course", "fluxes_time_course", "rhs_time_course", "unused_parameters",
-    "stoich_of_variable", "derived_split",
+    "stoich_of_variable", "derived_split", "mutate_returned",
 ]
 FLAG_NAMES = [
     "include_time", "include_variables", "include_parameters", "include_derived_parameters",
@@ -301,6 +301,16 @@ def run_query(m, q: dict):  # noqa: ANN001, ANN201, C901, PLR0911, PLR0912
             return m.get_fluxes_time_course(df)
         args = m.get_args_time_course(df)
         return m.get_right_hand_side_time_course(args)
+    if what == "mutate_returned":
+        # the caller scribbles on the dicts a query handed out (it owns them, after all);
+        # the model's content is unchanged, so later answers must be too
+        pv = m.get_parameter_values()
+        ic = m.get_initial_conditions()
+        for d in (pv, ic):
+            for k in list(d):
+                d[k] = -123.0
+            d["__scribble__"] = 1.0
+        return [sorted(m.get_parameter_values()), sorted(m.get_initial_conditions())]
     if what == "unused_parameters":
         return sorted(m.get_unused_parameters())
     if what == "stoich_of_variable":
@@ -788,6 +798,7 @@ class Executor:
         if out_m[0] == "ok":
             self.last_mutator = k
             self.pending_mut = True
+            self.scribbled = False
             if k.startswith("remove_") or k.startswith("make_"):
                 freed = [n for n in pre_names if n not in names]
                 if freed:
@@ -839,10 +850,14 @@ class Executor:
         self.counters[f"query:{what}"] += 1
         if self.pending_mut:
             self.mut_then_query = True
+        if what == "mutate_returned":
+            self.scribbled = True
+            self.counters["probe:caller_scribbled_on_returned_dicts"] += 1
         if d is not None:
+            blame = "caller_scribbled_on_returned_dicts" if getattr(self, "scribbled", False) and what != "mutate_returned" else self.last_mutator
             self._viol(
                 "stale_answer",
-                ["stale_answer", self.last_mutator, f"query:{what}", d],
+                ["stale_answer", blame, f"query:{what}", d],
                 f"query {what} after {self.last_mutator}: edited model -> {_short(out_m)}, fresh model with the same content -> {_short(out_f)}",
             )
         # a repeated query must not depend on the previous one either
